@@ -1,7 +1,7 @@
 """C13 - Isolation is permanent, reciprocal and airtight (structural clauses)."""
 import ast
 from ..model import own_nodes, AnalysisError
-from ..paths import factmap, call_text, returns, must_call
+from ..paths import effects_outside, ctext, factmap, call_text, returns, must_call
 from ..typestate import InstanceTypestate
 from ..absval import EnumEval
 
@@ -72,12 +72,11 @@ def rule_consumer_guards(P, R, rid):
               'Context.on_process_disability_event'):
         u = P.unit(q)
         fm = factmap(u)
-        body = [s for s in u.node.body if not (isinstance(s, ast.Expr) and isinstance(s.value, ast.Constant))]
-        ok = len(body) == 1 and isinstance(body[0], ast.If) and not body[0].orelse and \
-            ast.unparse(body[0].test) == ACCEPTED[0]
-        R.check(rid, ok, '%s acts only for a CHECKED or RUNNING sender' % q, 'accept|%s' % q, u.loc(),
+        out = effects_outside(u, *ACCEPTED)
+        R.check(rid, not out, '%s acts only for a CHECKED or RUNNING sender' % q, 'accept|%s' % q,
+                u.loc(out[0]) if out else u.loc(),
                 '%s is not entirely under `status.state in [CHECKED, RUNNING]`: events of a peer that did not pass the '
-                'handshake are taken into account' % q)
+                'handshake are taken into account (%s)' % (q, '; '.join(ast.unparse(x)[:60] for x in out[:2])))
     u = P.unit('Context.on_authorization')
     fm = factmap(u)
     eff = [n for n in own_nodes(u.node) if (isinstance(n, ast.Assign) and ast.unparse(n.targets[0]) == 'status.state')
@@ -112,8 +111,8 @@ def rule_consumer_guards(P, R, rid):
     R.check(rid, ok, 'an identification is only applied to a peer still CHECKING', 'accept|on_identification_event',
             u.loc(), 'on_identification_event calls mapper.identify without the fact is_checking(timestamp)')
     ic = P.unit('SupvisorsInstanceStatus.is_checking')
-    rs = [ast.unparse(v) for v, f, n in returns(ic) if v is not None]
-    R.check(rid, rs == ['self.state == SupvisorsInstanceStates.CHECKING and timestamp > self.checking_time'],
+    rs = [ctext(v) for v, f, n in returns(ic) if v is not None]
+    R.check(rid, rs == [ctext('self.state == SupvisorsInstanceStates.CHECKING and timestamp > self.checking_time')],
             'is_checking = CHECKING and message later than the entry in CHECKING', 'accept|is_checking', ic.loc(),
             'is_checking returns %s' % rs)
     st = P.unit('SupvisorsInstanceStatus.state[set]')
@@ -266,7 +265,7 @@ def run(P, R):
             '_is_authorized does not read the state of the local instance as seen by the peer (%s)' %
             {k: defs.get(k) for k in ('state', 'instance_state', 'local_status_payload')})
     inc = [fs for k, fs in rs if k == 'INCONSISTENT']
-    ok = len(inc) == 1 and ('strategies_payload == RPCInterface(self.supvisors).get_strategies()', False) in inc[0] and \
+    ok = len(inc) == 1 and ('RPCInterface(self.supvisors).get_strategies() == strategies_payload', False) in inc[0] and \
         'self.proxy.supvisors.get_strategies' in defs.get('strategies_payload', '')
     R.check(r5, ok, 'differing strategies make the peer INCONSISTENT', 'verdict|inconsistent', ia.loc(),
             '_is_authorized does not return INCONSISTENT exactly when the remote get_strategies() differs from the '
@@ -274,7 +273,7 @@ def run(P, R):
     auth = [fs for k, fs in rs if k == 'AUTHORIZED']
     ok = len(auth) == 1 and {('local_status_payload is None', False),
                              ('instance_state == SupvisorsInstanceStates.ISOLATED', False),
-                             ('strategies_payload == RPCInterface(self.supvisors).get_strategies()', True)} <= auth[0]
+                             ('RPCInterface(self.supvisors).get_strategies() == strategies_payload', True)} <= auth[0]
     R.check(r5, ok, 'AUTHORIZED only after both checks passed', 'verdict|authorized', ia.loc(),
             '_is_authorized returns AUTHORIZED under %s' % [sorted(x) for x in auth])
     gs = P.unit('RPCInterface.get_strategies')
